@@ -1,2 +1,164 @@
-import SpoxModel.Model.BuildAlg
+import SpoxModel.Lemmas.BuildAlgDfs
+import SpoxModel.Lemmas.BuildAlgLca
+import SpoxModel.Lemmas.BuildAlgEmit
+import SpoxModel.Lemmas.BuildAlgDiscover
 /-! Property theorems for C04 (only property-level statements and non-vacuity examples live here). -/
+namespace C04
+open BuildAlg
+
+/-- What a successful `build` hands to the theorems below. -/
+theorem build_inv (p : Prog) (hwf : WF p) (b : Built) (tr : List Ev) (h : build p = .ok (b, tr)) :
+    ∃ cs : CState, tr = cs.trace.reverse ∧ Post p b ⟨[], []⟩ cs ∧ V.src 0 ∈ cs.intro ∧
+      b.topo = visit p.adjFull p.fuel (.src 0) [] ∧
+      (∀ g, ∀ a ∈ lookupL b.argsOf g, p.isArg a = true) := by
+  unfold build at h
+  split at h
+  · cases h
+  · rename_i st hd
+    simp only at h
+    split at h
+    · cases h
+    · split at h
+      · cases h
+      · rename_i cs hc
+        cases h
+        obtain ⟨hp, hs⟩ := post_compileG p _ _ _ _ _ hc
+        refine ⟨cs, rfl, hp, hs, rfl, ?_⟩
+        intro g a ha
+        have hg : ArgsGood p st :=
+          discover_argsGood p hwf _ _ _ _
+            ⟨by intro e he; simp [DState.empty] at he, by intro e he; simp [DState.empty] at he⟩ hd
+        obtain ⟨e, he, _, hae⟩ := lookupL_mem ha
+        exact hg.1 e he a hae
+
+/-- **emitted_once** (at most once): in the nested emission of a successful build no vertex — operator
+    application or per-graph source — occurs twice, whatever mixture of graphs and bodies uses it. -/
+theorem emitted_nodup (p : Prog) (hwf : WF p) (b : Built) (tr : List Ev)
+    (h : build p = .ok (b, tr)) : (emitted tr).Nodup := by
+  obtain ⟨cs, rfl, ⟨new, ht, _, _, hd, _, _⟩, _⟩ := build_inv p hwf b tr h
+  rw [emitted_reverse]
+  simp only [List.append_nil] at ht
+  rw [ht]; exact nodup_reverse' hd
+
+/-- **emitted_once** (exactly the reachable ones): a vertex is in the nested emission of a
+    successful build iff it is not an Argument and some requested output of the main graph
+    depends on it through input and subgraph edges. -/
+theorem emitted_iff_reachable (p : Prog) (hwf : WF p) (b : Built) (tr : List Ev)
+    (h : build p = .ok (b, tr)) (v : V) :
+    v ∈ emitted tr ↔ Reach p.adjFull (.src 0) v ∧ v.isArgOf p = false := by
+  obtain ⟨cs, rfl, ⟨new, ht, _, he, _, hi, ha⟩, hsrc, htopo, hargs⟩ := build_inv p hwf b tr h
+  simp only [List.append_nil] at ht
+  rw [emitted_reverse, List.mem_reverse, ht]
+  have hrank := rank_adjFull p hwf
+  constructor
+  · intro hv
+    obtain ⟨_, _, _, hvt, hva⟩ := he v hv
+    rw [htopo] at hvt
+    exact ⟨(mem_visit_iff (rankV p) hrank p.fuel (.src 0) v (rank_src_lt_fuel p hwf 0)).mp hvt, hva⟩
+  · rintro ⟨hr, hva⟩
+    -- an introduced vertex that is not an emission was introduced as an argument of some graph
+    have harg : ∀ x ∈ cs.intro, x ∈ emitted new ∨ x.isArgOf p = true := by
+      intro x hx
+      rcases hi x hx with h0 | h1 | ⟨a, hxa, hm⟩
+      · cases h0
+      · left; exact h1
+      · right
+        obtain ⟨g, hg⟩ := ha a hm
+        subst hxa
+        exact hargs g a hg
+    have hreach : ∀ w, Reach p.adjFull (.src 0) w → w ∈ cs.intro := by
+      intro w0 hr0
+      induction hr0 with
+      | refl => exact hsrc
+      | @step u w hru hw ih =>
+        rcases harg u ih with hu | hu
+        · obtain ⟨hgood, _⟩ := he u hu
+          cases u with
+          | node n =>
+            simp only [Prog.adjFull, List.mem_append, List.mem_map] at hw
+            rcases hw with ⟨i, hi', rfl⟩ | ⟨s, hs, rfl⟩
+            · exact hgood.1 _ (by simp only [Prog.adjIn, List.mem_map]; exact ⟨i, hi', rfl⟩)
+            · exact hgood.2 n rfl s hs
+          | src g => exact hgood.1 _ hw
+        · cases u with
+          | node n =>
+            simp only [V.isArgOf] at hu
+            obtain ⟨h1, h2⟩ := hwf.arg_leaf n hu
+            simp [Prog.adjFull, h1, h2] at hw
+          | src g => simp [V.isArgOf] at hu
+    rcases harg v (hreach v hr) with h1 | h1
+    · exact h1
+    · rw [hva] at h1; cases h1
+
+/-- **unreachable_not_emitted**: an operator application no requested output depends on is not in
+    the built model at all. -/
+theorem unreachable_not_emitted (p : Prog) (hwf : WF p) (b : Built) (tr : List Ev)
+    (h : build p = .ok (b, tr)) (n : Nat) (hn : ¬ Reach p.adjFull (.src 0) (.node n)) :
+    V.node n ∉ emitted tr :=
+  fun hc => hn ((emitted_iff_reachable p hwf b tr h _).mp hc).1
+
+/-- **emitted_once**, as a count: each operator application appears exactly once if some requested
+    output depends on it and not at all otherwise. -/
+theorem emitted_once (p : Prog) (hwf : WF p) (b : Built) (tr : List Ev)
+    (h : build p = .ok (b, tr)) (n : Nat) (hna : p.isArg n = false) :
+    (Reach p.adjFull (.src 0) (.node n) → (emitted tr).count (.node n) = 1) ∧
+    (¬ Reach p.adjFull (.src 0) (.node n) → (emitted tr).count (.node n) = 0) := by
+  constructor
+  · intro hr
+    have hm : V.node n ∈ emitted tr := (emitted_iff_reachable p hwf b tr h _).mpr ⟨hr, hna⟩
+    exact count_eq_one_of_nodup (emitted_nodup p hwf b tr h) hm
+  · intro hr
+    exact List.count_eq_zero.mpr (unreachable_not_emitted p hwf b tr h n hr)
+
+/-! ### the two traversals every step of the Builder is made of -/
+
+/-- **lca_spec**: `ScopeTree.lca` (the alternating-ancestor walk) returns a common ancestor of both
+    graphs, of maximal depth, on any tree — with fuel 2·(depth a + depth b) + 3. -/
+theorem lca_spec {par d : Nat → Nat} (T : Tree par d) (P Q fuel : Nat)
+    (hf : 2 * (d P + d Q) + 3 ≤ fuel) :
+    (Anc par (lca par fuel P Q) P ∧ Anc par (lca par fuel P Q) Q) ∧
+      ∀ c, Anc par c P → Anc par c Q → d c ≤ d (lca par fuel P Q) :=
+  BuildAlg.lca_spec T P Q fuel hf
+
+/-- **lca_lowest**: … hence every common ancestor of the two graphs encloses the result. -/
+theorem lca_lowest {par d : Nat → Nat} (T : Tree par d) (P Q fuel : Nat)
+    (hf : 2 * (d P + d Q) + 3 ≤ fuel) :
+    Anc par (lca par fuel P Q) P ∧ Anc par (lca par fuel P Q) Q ∧
+      ∀ c, Anc par c P → Anc par c Q → Anc par c (lca par fuel P Q) :=
+  BuildAlg.lca_lowest T P Q fuel hf
+
+/-- **least_enclosing_fixed_tree** (the relaxation fold on a fixed scope tree): starting from the
+    first graph that reaches a node and relaxing with `scope := lca(G, scope)` for every further graph
+    `G` that reaches it, the node ends in the lowest common ancestor of all those graphs: it encloses
+    each of them, and every scope enclosing all of them encloses it. -/
+theorem least_enclosing_fixed_tree {par d : Nat → Nat} (T : Tree par d) (D fuel : Nat)
+    (hD : ∀ x, d x ≤ D) (hf : 4 * D + 3 ≤ fuel) (G0 : Nat) (Gs : List Nat) :
+    Lowest par (G0 :: Gs) (Gs.foldl (fun acc G => lca par fuel G acc) G0) := by
+  have h0 : Lowest par [G0] G0 :=
+    ⟨fun G hG => by simp at hG; subst hG; exact Anc.refl G, fun c' hc' => hc' G0 (by simp)⟩
+  simpa using relax_fold_lowest T D fuel hD hf Gs [G0] G0 h0
+
+/-- **visit_spec** (`iterative_dfs` post-order on a program in creation order): every vertex is listed
+    after all the vertices it depends on (inputs and bodies), exactly once, and the list is exactly
+    the set of vertices the root depends on. -/
+theorem visit_spec (p : Prog) (hwf : WF p) (g : Nat) :
+    Closed p.adjFull (visit p.adjFull p.fuel (.src g) []) ∧
+    (visit p.adjFull p.fuel (.src g) []).Nodup ∧
+    ∀ x, x ∈ visit p.adjFull p.fuel (.src g) [] ↔ Reach p.adjFull (.src g) x := by
+  have hrank := rank_adjFull p hwf
+  have hf := rank_src_lt_fuel p hwf g
+  refine ⟨(BuildAlg.visit_spec (rankV p) hrank p.fuel _ [] hf (closed_nil _)).1,
+    visit_nodup (rankV p) hrank p.fuel _ [] List.nodup_nil,
+    fun x => mem_visit_iff (rankV p) hrank p.fuel _ x hf⟩
+
+/-- the same for the input-edge traversals of `discover` / `update_scope_tree` -/
+theorem visit_spec_inputs (p : Prog) (hwf : WF p) (g : Nat) :
+    Closed p.adjIn (p.postIn g) ∧ (p.postIn g).Nodup ∧
+    ∀ x, x ∈ p.postIn g ↔ Reach p.adjIn (.src g) x := by
+  have hrank := rank_adjIn p hwf
+  have hf := rank_src_lt_fuel p hwf g
+  refine ⟨(BuildAlg.visit_spec (rankV p) hrank p.fuel _ [] hf (closed_nil _)).1,
+    visit_nodup (rankV p) hrank p.fuel _ [] List.nodup_nil,
+    fun x => mem_visit_iff (rankV p) hrank p.fuel _ x hf⟩
+
+end C04
